@@ -261,6 +261,15 @@ Example C08_ex_combine_value :
   = Some (40 # 3)%Q.
 Proof. split; vm_compute; reflexivity. Qed.
 
+(* masked-array entry point of fornav: the result is masked where _mask_helper (regenerated from ewa.py) says so, which
+   is exactly where a value would be classified as invalid input (NaN equals nothing: first hypothesis; a written
+   cell is the fill or a number: second) *)
+Theorem C08_mask_helper_is_invalid : forall {T} (OP : ops T) d fill,
+  (isnan OP fill = true -> eqb OP d fill = false) -> (isnan OP fill = false -> isnan OP d = false) ->
+  gen_mask_helper OP d fill = match classify OP fill d with None => true | Some _ => false end.
+Proof. intros T OP d fill H1 H2. rewrite gen_mask_helper_eq. exact (mask_helper_classify OP d fill H1 H2). Qed.
+Print Assumptions C08_mask_helper_is_invalid.
+
 (* ------------------------------------------------------------------ the resampler object: persist, histories, legacy *)
 (* [dr] = per input chunk, did ll2cr count no pixel near the grid (geometry only).  A call's chunks are CONSISTENT
    with it when a dropped chunk is a placeholder (always true in the code: _delayed_fornav returns the placeholder
